@@ -43,7 +43,9 @@ def _fresh(prefix="x"):
 
 # "litzero" / "litother": the same classes with other literal *values* (False / 0, 1 / True, and 2) — the outcome must not
 # depend on the value a literal happens to have (a value-dependent shortcut such as `x | False -> False` would)
-PROVENANCES = ["direct", "opresult", "ntuple", "object", "fnparam", "litzero", "litother", "littwo"]
+# "sameobj": operands of the same class are one and the same Python object (`x == x`, `x - x`); "revealed": every secret operand
+# has been revealed before (`x.to_public()`, result dropped) — the outcome depends on the classes only, not on the history of the object
+PROVENANCES = ["direct", "opresult", "ntuple", "object", "fnparam", "litzero", "litother", "littwo", "sameobj", "revealed"]
 
 
 def _direct(sty, party, salt=3):
@@ -76,6 +78,20 @@ def build(sty, prov, party):
         ob = Object.new({"p": _direct(("sec", "int"), party), "q": _direct(sty, party)})
         return ob.q
     raise ValueError(prov)
+
+
+def build_all(stys, prov, party):
+    """The operands of one cell for a provenance (see PROVENANCES)."""
+    if prov == "sameobj":
+        shared = {}
+        return [shared[s] if s in shared else shared.setdefault(s, build(s, "direct", party)) for s in stys]
+    if prov == "revealed":
+        ops = [build(s, "direct", party) for s in stys]
+        for o in ops:
+            if hasattr(o, "to_public"):
+                o.to_public()
+        return ops
+    return [build(s, prov, party) for s in stys]
 
 
 def outcome(thunk):
@@ -140,7 +156,7 @@ def rows():
                     r = ("weird", "fnparam-not-run")
             else:
                 try:
-                    ops = [build(s, prov, party) for s in stys]
+                    ops = build_all(stys, prov, party)
                 except Exception as exc:  # pylint: disable=broad-except
                     results.append(("weird", "build:" + type(exc).__name__))
                     continue
